@@ -6,6 +6,7 @@ use crate::message::{
     Message, MessageView, create_error_response_like, create_error_response_unstamped_view,
     create_response_unstamped, create_response_unstamped_view,
     create_typed_slice_response_unstamped, create_typed_slice_response_unstamped_view,
+    read_typed_slice_body,
 };
 use crate::peer::{CallContext, PeerHandle};
 use crate::registry::Registry;
@@ -505,7 +506,7 @@ where
     T: beve::BeveTypedSlice,
 {
     match BodyFormat::try_from(req.header.body_format) {
-        Ok(BodyFormat::Beve) => Ok(Ok(beve::read_typed_slice(&req.body)?)),
+        Ok(BodyFormat::Beve) => Ok(Ok(read_typed_slice_body(&req.body)?)),
         _ => Ok(Err(create_error_response_like(
             req,
             ErrorCode::InvalidBody,
@@ -523,7 +524,7 @@ where
     T: beve::BeveTypedSlice,
 {
     match BodyFormat::try_from(view.header.body_format) {
-        Ok(BodyFormat::Beve) => Ok(Ok(beve::read_typed_slice(view.body)?)),
+        Ok(BodyFormat::Beve) => Ok(Ok(read_typed_slice_body(view.body)?)),
         _ => Ok(Err(create_error_response_unstamped_view(
             view,
             ErrorCode::InvalidBody,
@@ -612,7 +613,8 @@ impl<T> SliceInput<'_, T> {
 ///   re-read.
 /// * A *regular* typed array (what `call_typed_slice` / the serde path send) has
 ///   no padding to borrow through, so it is always bulk-copied via
-///   [`beve::read_typed_slice`].
+///   [`beve::read_typed_slice`] (an empty `Vec<T>` from the serde path arrives as an
+///   empty generic array and decodes to the empty slice).
 fn decode_typed_slice_ref_body<T>(body: &[u8]) -> Result<SliceInput<'_, T>, RepeError>
 where
     T: beve::BeveTypedSlice,
@@ -628,7 +630,7 @@ where
             )?)),
         }
     } else {
-        Ok(SliceInput::Owned(beve::read_typed_slice::<T>(body)?))
+        Ok(SliceInput::Owned(read_typed_slice_body::<T>(body)?))
     }
 }
 
